@@ -76,6 +76,8 @@ def eval_roundtrip(short, version, rtype, bp):
     want = {"short": short, "version": version, "type": rtype}
     if bp:
         want.update({"bp_short": bp[0], "bp_version": bp[1], "bp_type": bp[2]})
+    if made[0] == "ok" and not bp:
+        _call(c.parse_release_id, "zz-9-eus@yy-8-aus")          # an earlier, unrelated parse must not leak into this one
     parsed = _call(c.parse_release_id, made[1]) if made[0] == "ok" else None
     return {"created": made, "model_id": want_id, "parsed": parsed, "model_parts": want}
 
@@ -239,5 +241,6 @@ def describe(tier):
         "bound": "string length <= %d; shorts <= 4 chars (+4 fixed); %s base-product cross" % (L, "full x reduced" if tier == "thorough" else "reduced"),
         "exhaustive": True,
         "assumptions": ["character classes are represented by one member each (rotated by VERIF_SEED)",
+                        "every plain round trip is preceded by a parse of an unrelated layered id (hidden state between calls)",
                         "newline is not part of the alphabet ('$' in the patterns also matches before a trailing newline)"],
     }
